@@ -349,6 +349,9 @@ theorem replaceFailedProxy_keeps (name : String) (s : Store) (addr choice : Stri
       | ok u =>
         cases u
         simp only
+        split
+        · -- ordered mode: takeover, a second bump, no replacement
+          exact h1.trans (keepsRel_of_clusters rfl)
         have h2 : KeepsRel name s1 { s1 with failed := if s1.failed.contains addr then s1.failed else s1.failed ++ [addr] } :=
           keepsRel_of_clusters rfl
         generalize ({ s1 with failed := if s1.failed.contains addr then s1.failed else s1.failed ++ [addr] } : Store) = S2 at h2 ⊢
